@@ -393,6 +393,11 @@ unsafe impl Allocator for CheckAlloc {
                     return true;
                 }
             }
+            // hard safety cap of the harness: never actually obtain (and poison) more than 256 MiB
+            if size > (256 << 20) {
+                e.refused.push((size, align));
+                return true;
+            }
             false
         });
         if refuse {
